@@ -211,7 +211,9 @@ static void case_block_sized_table(Rng& rng, uint64_t index)
 			break;
 		if(S > target)
 		{
-			data.pop_back();
+			// drop as many rows as the excess is worth (at least one)
+			size_t drop = std::max<size_t>(1, (size_t) ((double) (S - target) / ((double) S / (double) data.size())));
+			data.resize(data.size() > drop ? data.size() - drop : 0);
 			continue;
 		}
 		header = "#" + std::string((size_t) (target - S), 'x');
